@@ -230,16 +230,24 @@ class SymBytes:
     def __init__(self, terms):
         self.terms = list(terms)
 
+    @staticmethod
+    def _decode(b):
+        """real bytes met next to symbolic ones are the raw bytes of a float64 array (that is what the library
+        concatenates): one number per 8 bytes, so that a concrete array and an equal-valued symbolic one agree"""
+        if len(b) % 8 == 0:
+            return [core.realval(float(x)) for x in _np.frombuffer(b, dtype=_np.float64)]
+        return [z3.IntVal(x) for x in b]
+
     def __add__(self, o):
         if isinstance(o, SymBytes):
             return SymBytes(self.terms + o.terms)
         if isinstance(o, bytes):
-            return SymBytes(self.terms + [z3.IntVal(b) for b in o])
+            return SymBytes(self.terms + self._decode(o))
         return NotImplemented
 
     def __radd__(self, o):
         if isinstance(o, bytes):
-            return SymBytes([z3.IntVal(b) for b in o] + self.terms)
+            return SymBytes(self._decode(o) + self.terms)
         return NotImplemented
 
     def _same(self, o):
@@ -426,7 +434,11 @@ class NPProxy:
             return _np.array(obj, dtype=object).view(SymArray)
         if SYMBOLIC[0] and dtype in (float, complex, _np.float64, _np.complex128):
             return _np.array(obj, dtype=dtype, **k).astype(object).view(SymArray)
-        return _np.array(obj, **({} if dtype is None else {'dtype': dtype}), **k)
+        r = _np.array(obj, **({} if dtype is None else {'dtype': dtype}), **k)
+        if SYMBOLIC[0] and dtype is None and r.dtype.kind == 'f' and not isinstance(obj, _np.ndarray):
+            # a float array built from a Python list inside the symbolic phase may later receive symbolic entries
+            return r.astype(object).view(SymArray)
+        return r
 
     def asarray(self, obj, dtype=None, **k):
         if has_sym(obj):
